@@ -655,12 +655,28 @@ func c20RacePart(r *mc.Report) {
 			if !strings.Contains(blk, "WARNING: DATA RACE") {
 				continue
 			}
-			// top frames of the two racing accesses
+			// for each of the two racing accesses: the innermost frame that is simpleiot or harness code (frames of
+			// the standard library and of third-party modules above it are skipped: a race inside hash/crc32 reached
+			// from data.Point.CRC is a race of simpleiot's)
 			var tops []string
 			lines := strings.Split(blk, "\n")
 			for i, l := range lines {
-				if (strings.HasPrefix(l, "Write at") || strings.HasPrefix(l, "Read at") || strings.HasPrefix(l, "Previous")) && i+2 < len(lines) {
-					tops = append(tops, strings.TrimSpace(lines[i+1])+" "+strings.TrimSpace(lines[i+2]))
+				if !(strings.HasPrefix(l, "Write at") || strings.HasPrefix(l, "Read at") || strings.HasPrefix(l, "Previous")) {
+					continue
+				}
+				top := ""
+				for j := i + 1; j+1 < len(lines) && strings.TrimSpace(lines[j]) != ""; j += 2 {
+					fr := strings.TrimSpace(lines[j]) + " " + strings.TrimSpace(lines[j+1])
+					if top == "" {
+						top = fr
+					}
+					if strings.Contains(fr, "/repo/") || strings.Contains(fr, "/verif/") {
+						top = fr
+						break
+					}
+				}
+				if top != "" {
+					tops = append(tops, top)
 				}
 			}
 			inRepo, inHarness := false, true
